@@ -11,5 +11,6 @@ CONSTANTS
   BugB58Prefix = FALSE
   BugCursorChecksum = TRUE
   BugAssocMerge = TRUE
+  BugAssocAbsent = TRUE
 INVARIANTS EvOK PropOK
 CHECK_DEADLOCK FALSE
